@@ -518,6 +518,25 @@ class file_and_cli_paths_equal_api:
         d2, e2 = kp.loads(text)
         return kp.dumps(d1) == kp.dumps(d2) and len(e1) == len(e2) and [t.encoding for t in d1.get_all_tokens()] == [t.encoding for t in d2.get_all_tokens()]
 
+    def post_a_path_loaded_again_gives_the_current_text(score, others):
+        # the file path is a name, not the content: after the file was rewritten (by hand or by kp.dump) a second load of the same path
+        # is the import of the text that is there now
+        with tempfile.TemporaryDirectory() as d:
+            p = os.path.join(d, 'a.krn')
+            with open(p, 'w', encoding='utf-8') as f:
+                f.write(score.text())
+            first, _ = kp.load(p)
+            with open(p, 'w', encoding='utf-8') as f:
+                f.write(others[0])
+            second, e2 = kp.load(p)
+            want, _ = kp.loads(others[0])
+            if kp.dumps(second) != kp.dumps(want):
+                return False
+            kp.dump(first, p)
+            third, _ = kp.load(p)
+            again, _ = kp.loads(kp.dumps(first))
+        return kp.dumps(third) == kp.dumps(again)
+
     def post_dump_writes_dumps(score, opts):
         doc, _ = kp.loads(score.text())
         with tempfile.TemporaryDirectory() as d:
